@@ -427,7 +427,8 @@ class DynamicResource(Resource):
 
             part = _requote_path(part)
             formatter += part
-            pattern += re.escape(part)
+            # Requests are matched against rel_url.path_safe (decoded form)
+            pattern += re.escape(_path_safe(part))
 
         try:
             compiled = re.compile(pattern)
@@ -478,7 +479,7 @@ class PrefixResource(AbstractResource):
         assert prefix in ("", "/") or not prefix.endswith("/"), prefix
         super().__init__(name=name)
         self._prefix = _requote_path(prefix)
-        self._prefix2 = self._prefix + "/"
+        self._set_match_prefix()
 
     @property
     def canonical(self) -> str:
@@ -489,7 +490,12 @@ class PrefixResource(AbstractResource):
         assert not prefix.endswith("/")
         assert len(prefix) > 1
         self._prefix = prefix + self._prefix
-        self._prefix2 = self._prefix + "/"
+        self._set_match_prefix()
+
+    def _set_match_prefix(self) -> None:
+        # Requests are matched against rel_url.path_safe (decoded form)
+        self._prefix_safe = _path_safe(self._prefix)
+        self._prefix2 = self._prefix_safe + "/"
 
     def raw_match(self, prefix: str) -> bool:
         return False
@@ -606,14 +612,16 @@ class StaticResource(PrefixResource):
         norm_path = os.path.normpath(path)
         if IS_WINDOWS:
             norm_path = norm_path.replace("\\", "/")
-        if not norm_path.startswith(self._prefix2) and norm_path != self._prefix:
+        if not norm_path.startswith(self._prefix2) and norm_path != self._prefix_safe:
             return None, set()
 
         allowed_methods = self._allowed_methods
         if method not in allowed_methods:
             return None, allowed_methods
 
-        match_dict = {"filename": _unquote_path_safe(path[len(self._prefix) + 1 :])}
+        match_dict = {
+            "filename": _unquote_path_safe(path[len(self._prefix_safe) + 1 :])
+        }
         return (UrlMappingMatchInfo(match_dict, self._routes[method]), allowed_methods)
 
     def __len__(self) -> int:
@@ -1119,7 +1127,8 @@ class UrlDispatcher(AbstractRouter, Mapping[str, AbstractResource]):
             # the index key will be `/core` since index is based on the
             # url parts split by `/`
             index_key = index_key.partition("{")[0].rpartition("/")[0]
-        return index_key.rstrip("/") or "/"
+        # the index is looked up with parts of rel_url.path_safe (decoded form)
+        return _path_safe(index_key.rstrip("/")) or "/"
 
     def index_resource(self, resource: AbstractResource) -> None:
         """Add a resource to the resource index."""
@@ -1265,6 +1274,11 @@ class UrlDispatcher(AbstractRouter, Mapping[str, AbstractResource]):
 
 def _quote_path(value: str) -> str:
     return URL.build(path=value, encoded=False).raw_path
+
+
+def _path_safe(value: str) -> str:
+    # The form in which a quoted path reaches the router (rel_url.path_safe)
+    return URL.build(path=value, encoded=True).path_safe
 
 
 def _unquote_path_safe(value: str) -> str:
